@@ -67,20 +67,58 @@ def fl(x):
     return x
 
 
+def _layout(a):
+    """Memory layout of a generated array argument: a deterministic function of its content (so replays
+    are exact).  The semantics of every robotools function is independent of the layout (C-/Fortran-ordered,
+    strided view, nested lists), so varying it is always a legal re-spelling of the same argument."""
+    import zlib
+    return zlib.crc32(repr(a).encode()) % 4
+
+
+def _relayout(m, k):
+    if k == 1:
+        return np.asfortranarray(m)
+    if k == 2:                       # non-contiguous view into a larger buffer
+        big = np.empty((m.shape[0] * 2, m.shape[1] + 1), dtype=m.dtype)
+        big[::2, :-1] = m
+        v = big[::2, :-1]
+        assert v.shape == m.shape and not v.flags["C_CONTIGUOUS"] or m.size <= 1 or m.shape[0] == 1
+        return v
+    if k == 3:
+        return m.tolist()            # nested lists
+    return m
+
+
 def arr_num(a):
     if a[0] == "S":
         return fl(a[1])
     if a[0] == "V":
-        return [fl(x) for x in a[1]]
-    return np.array([fl(x) for x in a[3]], dtype=float).reshape((a[1], a[2]))
+        xs = [fl(x) for x in a[1]]
+        k = _layout(a)
+        if k == 1 and xs:
+            return np.array(xs, dtype=float)
+        if k == 2 and xs:
+            return np.array([y for x in xs for y in (x, -1.0)], dtype=float)[::2]
+        return xs
+    m = np.array([fl(x) for x in a[3]], dtype=float).reshape((a[1], a[2]))
+    return _relayout(m, _layout(a)) if m.size else m
 
 
 def arr_str(a):
     if a[0] == "S":
         return a[1]
     if a[0] == "V":
-        return list(a[1])
-    return np.array(list(a[3]), dtype=object).astype(str).reshape((a[1], a[2])) if a[3] else np.zeros((a[1], a[2]), dtype=str)
+        xs = list(a[1])
+        k = _layout(a)
+        if k == 1 and xs:
+            return np.array(xs, dtype=object).astype(str)
+        if k == 2 and xs:
+            return tuple(xs)
+        return xs
+    if not a[3]:
+        return np.zeros((a[1], a[2]), dtype=str)
+    m = np.array(list(a[3]), dtype=object).astype(str).reshape((a[1], a[2]))
+    return _relayout(m, _layout(a))
 
 
 def tipsym(t):
@@ -175,7 +213,11 @@ def dump_state(labs, wl) -> dict:
 
 def apply_op(labs, wl, op: dict):
     k = op["op"]
-    if k == "add":
+    if k == "reconfigure":
+        # the worklist's public attributes are reassigned between operations (e.g. other tips mounted)
+        wl.max_volume = fl(op["cfg"]["max_volume"])
+        wl.auto_split = op["cfg"].get("auto_split", True)
+    elif k == "add":
         labs[op["lab"]].add(arr_str(op["wells"]), arr_num(op["vols"]), op.get("label"), compositions=comps_of(op.get("comps")))
     elif k == "remove":
         labs[op["lab"]].remove(arr_str(op["wells"]), arr_num(op["vols"]), op.get("label"))
